@@ -35,13 +35,18 @@ def cases(draw, tier):
     target = draw(common.target_spec(g))
     thr = draw(st.sampled_from([0, 0, 0, 0.5, 1 / 3, 2 / 3, 1]))
     n = len(g["triples"])
+    dups = draw(common.dups(g)) if draw(st.integers(0, 5)) == 0 else []      # re-stated statements: still the same graph
+    n += len(dups)
     perm = list(draw(st.permutations(range(n))))
     bn = sorted({t[1] for tr in g["triples"] for t in (tr[0], tr[2]) if t[0] == "bnode"})
     ren = {}
     if bn and draw(st.booleans()):
         targets = list(draw(st.permutations(bn))) if draw(st.booleans()) else ["_:r%d" % (len(bn) - i) for i in range(len(bn))]
         ren = dict(zip(bn, targets))
-    return {"g": g, "cfg": cfg, "target": target, "thr": thr, "perm": perm, "rename": ren}
+    case = {"g": g, "cfg": cfg, "target": target, "thr": thr, "perm": perm, "rename": ren}
+    if dups:
+        case["dups"] = dups
+    return case
 
 
 def strategy(tier):
@@ -125,6 +130,10 @@ def check(case):
     cfg = case["cfg"]
     inst_prop = case["g"]["inst_prop"]
     thr = case["thr"]
+    if case.get("dups"):
+        # the document re-states some triples; sheXer's line-based readers count a re-stated value again (C01-DUPVALUE), and
+        # they must do so whatever the order: the model behind the tie detector counts the statements of the document too
+        triples = common.doc_triples(case, triples)
     t2 = transform(triples, case["perm"], case.get("rename", {}))
     out1, c1 = run(kw, triples, thr)
     out2, c2 = run(kw, t2, thr)
@@ -147,6 +156,8 @@ def check(case):
     identity = case["perm"] == sorted(case["perm"])
     if case.get("rename"):
         labels.add("bnode-renamed")
+    if case.get("dups"):
+        labels.add("restated-statements")
     any_tie = False
     rich = False
     for S in sel:
